@@ -370,6 +370,17 @@ func c16merges(rng *sx.Rng, n int) {
 	}
 }
 
+// an embedded struct as inline destination; its field Name is shadowed (as a Go name) by the outer one
+type C16Base struct {
+	Name string `yaml:"base_name"`
+	Kind string `yaml:"kind"`
+}
+
+type c16outer struct {
+	Name    string `yaml:"name"`
+	C16Base `yaml:",inline"`
+}
+
 // a field type that unmarshals itself and reports a message-only warning
 type c16warnField struct{ V string }
 
@@ -443,6 +454,21 @@ func c16edges() {
 		}
 		if dst.First != "f" || dst.Noted.V != "n" || dst.Last != "l" || dst.Rest["left"] != "over" || len(dst.Rest) != 1 {
 			return fmt.Sprintf("got %+v (err %v): every key must reach its destination although one field reported a warning", dst, err)
+		}
+		return ""
+	})
+	try("an embedded struct tagged inline", func() string {
+		for _, text := range []string{"name: outer\nbase_name: inner\nkind: k\n", "base_name: inner\n", "kind: k\nname: outer\nextra: ignored\n"} {
+			var n yaml.Node
+			if err := yaml.Unmarshal([]byte(text), &n); err != nil {
+				return err.Error()
+			}
+			var viaOrdered, viaYAML c16outer
+			oerr := ordered.Unmarshal(&n, &viaOrdered)
+			yerr := n.Decode(&viaYAML)
+			if oerr != nil || yerr != nil || viaOrdered != viaYAML {
+				return fmt.Sprintf("document %q: ordered.Unmarshal gives %+v (err %v), yaml.v3 gives %+v (err %v)", text, viaOrdered, oerr, viaYAML, yerr)
+			}
 		}
 		return ""
 	})
